@@ -33,7 +33,7 @@ def run_seed(sid):
     def go(us):
         if not us:
             return {}
-        env = dict(os.environ, VERIF_REPO=s, VERIF_JOBS="5")
+        env = dict(os.environ, VERIF_REPO=s, VERIF_JOBS="3")
         p = subprocess.run(["python3", os.path.join(V, "run.py"), "unit"] + [re.escape(u["id"]) for u in us],
                            env=env, capture_output=True, text=True)
         out = {}
@@ -60,6 +60,6 @@ def run_seed(sid):
     return res
 if __name__ == "__main__":
     ids = sys.argv[1:] or sorted(x for x in os.listdir(os.path.join(V, "seeded")) if os.path.isdir(os.path.join(V, "seeded", x)))
-    with cf.ThreadPoolExecutor(max_workers=3) as ex:
+    with cf.ThreadPoolExecutor(max_workers=7) as ex:
         for r in ex.map(run_seed, ids):
             print(json.dumps(r), flush=True)
